@@ -51,7 +51,7 @@ class CFBlackScholes:
             or spot < CFBlackScholes.eps
             or maturity < CFBlackScholes.eps
         ):
-            intrinsic = max(0.0, flag * (fwd - strike))
+            intrinsic = np.maximum(0.0, flag * (fwd - strike))
             return df * intrinsic
 
         stddev = sigma * np.sqrt(maturity)
@@ -113,7 +113,7 @@ class CFBlackScholes:
             or spot < CFBlackScholes.eps
             or maturity < CFBlackScholes.eps
         ):
-            intrinsic = np.array([1 if fwd > k else 0 for k in strike])
+            intrinsic = np.where(fwd > np.asarray(strike), 1, 0)
             return df * intrinsic
 
         stddev = sigma * np.sqrt(maturity)
